@@ -17,6 +17,9 @@ structure DSt where
   spec : List Entry           -- Spec registry: every key holds its last registration
   disk : List Entry           -- what settings.json holds (differs from `reg` after a torn save)
   torn : Option Name          -- pattern whose save was torn since the last successful save
+  dirty : Bool                -- the model's `unsaved` flag
+  lost : Bool                 -- the last restart dropped an ACKNOWLEDGED registration (file behind the runtime map)
+  files : List (Name × Nat)   -- swamps on disk: how many treasures each persisted (op `live`)
 
 def lookupOf (s : String) : Lookup :=
   if s == "iteratesMap" then .iteratesMap else if s == "ranked" then .ranked else .unknown
@@ -37,16 +40,16 @@ def results (cfg : Cfg) (reg : List Entry) (n : Name) : List String :=
 
 def step (d : DSt) (line : String) : DSt × String :=
   match line.splitOn " " with
-  | ["case", _] => ({ d with reg := [], pre := none, spec := [], disk := [], torn := none }, line)
+  | ["case", _] => ({ d with reg := [], pre := none, spec := [], disk := [], torn := none, dirty := false, lost := false, files := [] }, line)
   | ["reg", s, r, w, m, idle, wi, size] =>
     match idle.toInt?, wi.toInt?, size.toInt? with
     | some i, some v, some z =>
       if m != "M" && m != "P" then (d, "bad-op") else
       let p : Name := ⟨bytesOf s, bytesOf r, bytesOf w⟩
-      let reg' := register d.cfg d.reg p (m == "M") i v z
-      -- the early return writes nothing; otherwise the whole registry is saved (which also repairs a torn file)
-      let saved := !(m == "P" && unchanged d.cfg d.reg (canon p) i v z)
-      ({ d with reg := reg', pre := none, disk := if saved then reg' else d.disk, torn := if saved then none else d.torn,
+      let rd := stepRD d.cfg ⟨d.reg, d.disk, d.dirty⟩ (.reg p (m == "M") i v z)
+      let reg' := rd.rt
+      -- an acknowledged registration: from now on the Spec expects it after a restart, torn history or not
+      ({ d with reg := reg', pre := none, disk := rd.disk, dirty := rd.dirty, torn := none,
                 spec := d.spec.filter (fun e => !hasKey (canon p) e) ++ [entryOf p (m == "M") i v z] }, "ok")
     | _, _, _ => (d, "bad-op")
   | ["regtorn", s, r, w, m, idle, wi, size] =>
@@ -54,17 +57,17 @@ def step (d : DSt) (line : String) : DSt × String :=
     | some i, some v, some z =>
       if m != "M" && m != "P" then (d, "bad-op") else
       let p : Name := ⟨bytesOf s, bytesOf r, bytesOf w⟩
-      let reg' := register d.cfg d.reg p (m == "M") i v z
-      let saved := !(m == "P" && unchanged d.cfg d.reg (canon p) i v z)
+      let early := earlyRD d.cfg ⟨d.reg, d.disk, d.dirty⟩ p (m == "M") i v z
+      let rd := stepRD d.cfg ⟨d.reg, d.disk, d.dirty⟩ (.torn p (m == "M") i v z)
+      let reg' := rd.rt
       -- the runtime map has the pattern; the file keeps its old content (atomic replace) or is truncated (in place)
-      ({ d with reg := reg', pre := none,
-                disk := if !saved then d.disk else if d.cfg.saveAtomic then d.disk else [],
-                torn := if saved then some p else d.torn,
+      ({ d with reg := reg', pre := none, disk := rd.disk, dirty := rd.dirty,
+                torn := if early then d.torn else some p,
                 spec := d.spec.filter (fun e => !hasKey (canon p) e) ++ [entryOf p (m == "M") i v z] }, "ok")
     | _, _, _ => (d, "bad-op")
   | ["dereg", s, r, w] =>
     let reg' := deregister d.reg ⟨bytesOf s, bytesOf r, bytesOf w⟩
-    ({ d with reg := reg', pre := none, disk := reg', torn := none,
+    ({ d with reg := reg', pre := none, disk := reg', dirty := false, torn := none,
               spec := deregister d.spec ⟨bytesOf s, bytesOf r, bytesOf w⟩ }, "ok")
   | ["get", s, r, w] =>
     let n : Name := ⟨bytesOf s, bytesOf r, bytesOf w⟩
@@ -73,11 +76,22 @@ def step (d : DSt) (line : String) : DSt × String :=
     let f1 := if (ps.map (·.f)).eraseDups.length > 1 then "\t#F:C21-map-order-lookup" else ""
     let f2 := match d.pre with
       | some old => if results d.cfg old n != rs then
-          (if d.cfg.saveAtomic then "\t#F:C21-restart-loses-field" else "\t#F:C21-settings-save-not-atomic") else ""
+          (if !d.cfg.saveAtomic then "\t#F:C21-settings-save-not-atomic"
+           else if d.lost then "\t#F:C21-acknowledged-registration-lost" else "\t#F:C21-restart-loses-field") else ""
       | none => ""
     -- the winning entry is not what was last registered for its pattern
-    let f3 := if ps.any (fun e => e != defaultEntry n && !(d.spec.contains e)) then "\t#F:C21-reregistration-ignored" else ""
-    (d, "res " ++ " ".intercalate rs ++ f1 ++ f2 ++ f3)
+    -- the Spec registry (last acknowledged registration of every key) resolves the name differently
+    let f4 := if results d.cfg d.spec n != rs then "\t#F:C21-acknowledged-registration-lost" else ""
+    let f3 := if ps.any (fun e => e != defaultEntry n && !(d.spec.contains e)) then (if d.cfg.unchangedChecksType then "\t#F:C21-acknowledged-registration-lost" else "\t#F:C21-reregistration-ignored") else ""
+    (d, "res " ++ " ".intercalate rs ++ f1 ++ f2 ++ f3 ++ (if f1 == "" && f2 == "" && f3 == "" then f4 else ""))
+  | ["live", s, r, w] =>
+    -- a swamp is created with the settings GetBySwampName resolves at that moment: an in-memory swamp starts empty and
+    -- leaves nothing on disk, a persistent one loads what is there and persists the new treasure on close
+    let n : Name := ⟨bytesOf s, bytesOf r, bytesOf w⟩
+    let eff := ((possible d.cfg d.reg n).head?).getD (defaultEntry n)
+    let prev := ((d.files.find? fun e => e.1 == n).map (·.2)).getD 0
+    if eff.f.inMem then (d, s!"live count=1 disk={decide (prev > 0)}")
+    else ({ d with files := (n, prev + 1) :: d.files.filter (fun e => e.1 != n) }, s!"live count={prev + 1} disk=true")
   | ["restart"] =>
     let old := match d.pre with | some o => o | none => d.reg
     let reg' := reload d.cfg d.disk
@@ -88,7 +102,11 @@ def step (d : DSt) (line : String) : DSt × String :=
       | some p => deregister d.spec p ++ durable p
       | none => d.spec
     let old' := match d.torn with | some p => deregister old p ++ durable p | none => old
-    ({ d with reg := reg', pre := some old', spec := spec', disk := reg', torn := none }, "ok")
+    -- did the file lag behind the runtime map for a key other than the torn one?
+    let rtKept := match d.torn with | some p => deregister d.reg p | none => d.reg
+    let dkKept := match d.torn with | some p => deregister reg' p | none => reg'
+    let lost := !(rtKept.all dkKept.contains && dkKept.all rtKept.contains) && d.cfg.persistsAll
+    ({ d with reg := reg', pre := some old', spec := spec', disk := reg', dirty := false, torn := none, lost := lost }, "ok")
   | _ => (d, "bad-op")
 
 def run (args : List String) : IO UInt32 := do
@@ -96,8 +114,8 @@ def run (args : List String) : IO UInt32 := do
   let cfg : Cfg :=
     ⟨lookupOf (arg kv "lookup"), cmpOf (arg kv "cmp"),
      ((arg kv "wRealm").toInt?).getD 0, ((arg kv "wSwamp").toInt?).getD 0,
-     yes (arg kv "persistsInMem"), yes (arg kv "persistsIdle"), yes (arg kv "persistsWi"), yes (arg kv "persistsSize"), yes (arg kv "unchangedChecksType"), yes (arg kv "saveAtomic")⟩
-  lineLoop step ⟨cfg, [], none, [], [], none⟩
+     yes (arg kv "persistsInMem"), yes (arg kv "persistsIdle"), yes (arg kv "persistsWi"), yes (arg kv "persistsSize"), yes (arg kv "unchangedChecksType"), yes (arg kv "saveAtomic"), yes (arg kv "unchangedChecksDisk")⟩
+  lineLoop step ⟨cfg, [], none, [], [], none, false, false, []⟩
   return 0
 
 end Driver.C21
